@@ -314,6 +314,26 @@ func GenCompose(prop string, seed uint64, pool *Pool) *Plan {
 		switch prop {
 		case "C11":
 			st.Patches = []any{map[string]any{"action": "ietf-json-patch", "patches": genHostileRFC6902(r, doc)}}
+			if rd := r.Stream("decoy"); rd.Chance(1, 4) {
+				// a harmless list validated first whose pointers, written one after the other, read the same as the hostile list's
+				// pointers (a single pointer holding the delimiter): whatever the validator remembers about lists by a flattened
+				// description cannot tell the two apart
+				var ptrs []string
+				for _, o := range listOf(st.Patches[0].(map[string]any)["patches"]) {
+					om, _ := o.(map[string]any)
+					for _, name := range []string{"path", "from"} {
+						if v, isStr := om[name].(string); isStr {
+							ptrs = append(ptrs, v)
+						}
+					}
+				}
+				joined := strings.Join(ptrs, core.Pick(rd, []string{",", ",", "", " ", "|", ";", "\n", "\x00"}))
+				if len(ptrs) > 1 && strings.HasPrefix(joined, "/") && !protectedPointer(joined) {
+					decoy := Step{Op: SCompose, Args: map[string]any{"setup": setup}, Patches: []any{map[string]any{"action": "ietf-json-patch",
+						"patches": []any{map[string]any{"op": "add", "path": joined, "value": jsonInt(1)}}}}}
+					p.Steps = append(p.Steps, decoy)
+				}
+			}
 			if r.Chance(1, 4) {
 				var other []string
 				st.Patches = append(st.Patches, genPatches(r, pool, &Swarm{Patches: []string{"ietf-json-patch"}}, 1, &other)...)
@@ -345,7 +365,7 @@ func GenCompose(prop string, seed uint64, pool *Pool) *Plan {
 		default: // C10
 			st.Args["ctor"] = r.Chance(1, 3)
 			var other []string
-			st.Patches = genPatches(r, pool, s, 4, &other)
+			st.Patches = strayListMembers(r.Stream("stray-members"), genPatches(r, pool, s, 4, &other))
 			if len(bigKeys)+len(bigSvcs) > 0 {
 				// removals and re-additions that hit existing entries of the long lists (first, middle, last) and miss some
 				rb := r.Stream("big-patches")
@@ -459,4 +479,23 @@ func isContainerValue(v any) bool {
 		return true
 	}
 	return false
+}
+
+// strayListMembers puts, into some id / uri lists of remove patches, a member that is not a string (validation skips such
+// members, and so do the documented semantics: they name nothing): in front of, between and behind the real ones.
+func strayListMembers(r *core.RNG, patches []any) []any {
+	for _, p := range patches {
+		m, _ := p.(map[string]any)
+		for _, member := range []string{"ids", "uris"} {
+			l, isList := m[member].([]any)
+			a, _ := m["action"].(string)
+			if !isList || !strings.HasPrefix(a, "remove-") || !r.Chance(1, 4) {
+				continue
+			}
+			k := r.Intn(len(l) + 1)
+			stray := core.Pick(r, []any{jsonInt(7), nil, true, map[string]any{"id": "k1"}, []any{"k1"}})
+			m[member] = append(append(append([]any{}, l[:k]...), stray), l[k:]...)
+		}
+	}
+	return patches
 }
